@@ -78,14 +78,14 @@ PROPS = {
              "(not a NaN/Inf prologue); distinct = distinct (op, ctx, operands) cases",
     ),
     "C02": dict(
-        mc=[("MC_Round", None)],
+        mc=[("MC_Round", None), ("MC_AlgQuo", "MC_AlgQuo_nosticky", "expect-violation")],
         drivers=["arithS", "arithL", "intS", "roots"],
         attr=attr_c02,
         rule="flag conjuncts of every recorded arithmetic event: decided bits equal the spec's, Inexact=>Rounded, "
              "Overflow=>Inexact, Underflow=>Subnormal&Inexact, no bit outside the 12 conditions",
     ),
     "C07": dict(
-        mc=[("MC_Round", None)],
+        mc=[("MC_Round", None), ("MC_AlgQuo", None), ("MC_AlgQuo", "MC_AlgQuo_nocarry", "expect-violation")],
         drivers=["arithS", "arithL", "intS", "intL"],
         attr=attr_c07,
         rule="Fits(ctx, result) on every finite result of a rounding operation",
